@@ -185,6 +185,9 @@ def run(ctx):
     if cc:
         streams.append(("corpus", cc, X.TOOLS))
     chains = [X.gen_chain_case(ctx.rng, f"ch{k}") for k in range(24 if not big else 400)]
+    import random as _random
+    rrng = _random.Random(f"ring:{getattr(ctx, 'seed', 0)}")
+    chains += [X.gen_ring_case(rrng, f"rg{k}", missing=(k % 3 == 2)) for k in range(12 if not big else 150)]
     streams.append(("chained-imports", chains, ["check-express"] if quick else X.TOOLS))
     graphs = []
     for k in range(60 if not big else 3000):
